@@ -563,10 +563,15 @@ pub struct ShortCase {
     pub regime: u8,
     /// (datagrams in the burst, length selector, flush tick after the burst)
     pub bursts: Vec<(u8, u16, bool)>,
+    /// the peer end of the uplink socket is closed after this burst: every later send is refused by the kernel
+    /// (ECONNREFUSED - what a UDP uplink sees after an ICMP port-unreachable)
+    #[serde(default)]
+    pub peer_gone_after: Option<u8>,
 }
 
 fn short_strategy() -> impl Strategy<Value = ShortCase> {
-    (0u8..3, vec((prop_oneof![1u8..8, 8u8..40, 40u8..100], prop_oneof![Just(9u16), Just(11), 100u16..1500], prop::bool::weighted(0.8)), 1..8)).prop_map(|(regime, bursts)| ShortCase { regime, bursts })
+    (0u8..3, vec((prop_oneof![1u8..8, 8u8..40, 40u8..100], prop_oneof![Just(9u16), Just(11), 100u16..1500], prop::bool::weighted(0.8)), 1..8), prop::option::weighted(0.3, 0u8..6))
+        .prop_map(|(regime, bursts, peer_gone_after)| ShortCase { regime, bursts, peer_gone_after })
 }
 
 pub fn check_short(case: &ShortCase, obs: &mut Obs) -> CheckResult {
@@ -615,8 +620,31 @@ pub fn check_short(case: &ShortCase, obs: &mut Obs) -> CheckResult {
     let mut sent: Vec<Vec<u8>> = Vec::new();
     let mut counter = 0u32;
     let mut torn = false;
-    for (n, lsel, tick) in &case.bursts {
+    let mut b = Some(b);
+    let mut drainer = Some(drainer);
+    let mut got_before_close: Vec<Vec<u8>> = Vec::new();
+    let mut accepted_after_close = 0u32;
+    for (bi, (n, lsel, tick)) in case.bursts.iter().enumerate() {
+        if case.peer_gone_after.is_some_and(|k| k as usize + 1 == bi) && b.is_some() && !torn {
+            // the peer goes away: collect what has arrived, then close every descriptor of its end
+            stop.store(true, std::sync::atomic::Ordering::Release);
+            if let Some(d) = drainer.take() {
+                let _ = d.join();
+            }
+            let bb = b.take().unwrap();
+            let _ = bb.set_nonblocking(true);
+            let mut buf = [std::mem::MaybeUninit::<u8>::uninit(); 2048];
+            got_before_close = received.lock().unwrap().clone();
+            while let Ok(n) = bb.recv(&mut buf) {
+                got_before_close.push(buf[..n].iter().map(|x| unsafe { x.assume_init() }).collect());
+            }
+            drop(bb);
+            obs.class("peer-of-the-uplink-socket-closed");
+        }
         for _ in 0..*n {
+            if b.is_none() && sh.st.conns[0].connected {
+                accepted_after_close += 1;
+            }
             counter += 1;
             let len = (*lsel as usize).clamp(9, 1500);
             let pkt = client_datagram(0, len, counter, counter);
@@ -646,8 +674,32 @@ pub fn check_short(case: &ShortCase, obs: &mut Obs) -> CheckResult {
     if !sh.st.conns[0].connected {
         torn = true;
     }
+    if b.is_none() {
+        // the peer was closed: everything sent afterwards was refused by the kernel, so the link must have failed
+        // (a send error tears it down); what arrived before is an ordered subsequence of what was accepted
+        let mut it = sent.iter();
+        for g in &got_before_close {
+            vensure!(it.any(|s| s == g), "datagram-invented-or-duplicated", "short-send tier: received a datagram out of order / not accepted");
+        }
+        if accepted_after_close > 0 {
+            obs.nontrivial = true;
+            obs.sample = Some(json!({"regime": case.regime, "bursts": case.bursts, "peer_gone_after": case.peer_gone_after}));
+            vensure!(
+                torn,
+                "refused-send-reported-as-sent",
+                "short-send tier: the peer of the uplink socket was closed after burst {:?}; {} datagrams were accepted and flushed afterwards, every send was refused by the kernel (ECONNREFUSED), yet the link is still connected and holds {} queued - the datagrams are gone on an uplink that did not fail",
+                case.peer_gone_after,
+                accepted_after_close,
+                sh.st.conns[0].batch_sender.queued_count()
+            );
+        }
+        return Ok(());
+    }
+    let b = b.unwrap();
     stop.store(true, std::sync::atomic::Ordering::Release);
-    let _ = drainer.join();
+    if let Some(d) = drainer.take() {
+        let _ = d.join();
+    }
     // whatever is still in the kernel queue
     let _ = b.set_nonblocking(true);
     let mut buf = [std::mem::MaybeUninit::<u8>::uninit(); 2048];
